@@ -135,9 +135,16 @@ impl<'result> CustomTypeParser<'result> {
         self.accept_in_place("(")
             .map_err(|_| CustomTypeParseError::UnexpectedCharacter(self.get_first_char(), '('))?;
 
-        Ok(Either::Right(std::iter::from_fn(|| {
+        // Once the end of input was reported, the iterator must end: the parser cannot
+        // advance any more, so it would otherwise yield the same error for ever.
+        let mut reported_end_of_input = false;
+        Ok(Either::Right(std::iter::from_fn(move || {
+            if reported_end_of_input {
+                return None;
+            }
             self.skip_blank_and_comma();
             if self.parser.is_at_eof() {
+                reported_end_of_input = true;
                 return Some(Err(CustomTypeParseError::UnexpectedEndOfInput));
             }
             let result = self.parser.accept(")");
